@@ -36,6 +36,14 @@ func (c *Ctx) pushFrame(s *State, fn *ssa.Function, args []Value, binds []Value)
 			fr.localIsAddr[fv.Name()] = true
 		}
 	}
+	if fc := c.eng.contracts.funcs[qualFnName(fn)]; fc != nil && !fc.Assumed && len(fc.Params) > 0 {
+		fr.alias = map[string]string{}
+		for i, pn := range fc.Params {
+			if i < len(fn.Params) && pn != fn.Params[i].Name() {
+				fr.alias[pn] = fn.Params[i].Name()
+			}
+		}
+	}
 	fr.entry = s.snapshot()
 	fr.entryClock = s.clock
 	s.frames = append(s.frames, fr)
